@@ -91,6 +91,36 @@ def replay_group(ctx: Ctx, F, recs: List[Dict[str, Any]], rng: random.Random) ->
             ctx.violation("pl:single-path", "pl on a single path differs from the account", {"record": r, "observed": got.item()})
 
 
+def double_precision(ctx: Ctx, F) -> None:
+    """float64 inputs that are NOT representable in float32 (prices, positions, rates such as 1e-3): the wealth identity is
+    evaluated in exact rational arithmetic on the given doubles (fractions.Fraction) and must be met to double precision - an
+    account kept in single precision, or rates rounded through float32, is off by 1e-8 to 1e-6."""
+    from fractions import Fraction as Fr
+    gen = torch.Generator().manual_seed(ctx.seed + 9)
+    for N, H, T, cost, first in ((3, 1, 4, [1e-3], True), (2, 2, 5, [1e-3, 3e-4], True), (2, 2, 3, [7e-3, 0.0], False), (1, 3, 2, [1e-2, 2e-2, 5e-4], True), (2, 1, 4, None, True)):
+        spot = torch.rand(N, H, T, dtype=torch.float64, generator=gen) * 1.7 + 0.3
+        unit = torch.randn(N, H, T, dtype=torch.float64, generator=gen)
+        payoff = torch.rand(N, dtype=torch.float64, generator=gen) * 0.3
+        exp = []
+        for i in range(N):
+            tot = -Fr(payoff[i].item())
+            for h in range(H):
+                c = Fr(cost[h]) if cost else Fr(0)
+                for t in range(T - 1):
+                    tot += Fr(unit[i, h, t].item()) * (Fr(spot[i, h, t + 1].item()) - Fr(spot[i, h, t].item()))
+                    tot -= c * abs(Fr(unit[i, h, t + 1].item()) - Fr(unit[i, h, t].item())) * Fr(spot[i, h, t + 1].item())
+                if first:
+                    tot -= c * abs(Fr(unit[i, h, 0].item())) * Fr(spot[i, h, 0].item())
+            exp.append(float(tot))
+        want = torch.tensor(exp, dtype=torch.float64)
+        for fname in ("pl", "terminal_value"):
+            got = getattr(F, fname)(spot=spot.clone(), unit=unit.clone(), cost=cost, payoff=payoff.clone(), deduct_first_cost=first)
+            ctx.count(n=N)
+            if got.dtype != torch.float64 or not bool(((got - want).abs() <= 1e-13 * (1 + want.abs())).all()):
+                ctx.violation(f"{fname}:double-precision", f"{fname} on float64 inputs differs from the wealth identity evaluated exactly on those doubles by more than double-precision round-off",
+                              {"N": N, "H": H, "T": T, "cost": cost, "deduct_first_cost": first, "max_abs_error": float((got.double() - want).abs().max()), "dtype": str(got.dtype)})
+
+
 def check(ctx: Ctx) -> None:
     import pfhedge.nn.functional as F
     from checks import hedge_common
@@ -120,6 +150,7 @@ def check(ctx: Ctx) -> None:
     replay_group(probe, F, [bad], random.Random(0))
     ctx.selftest("corrupted expected wealth is rejected", len(probe.violations) > 0)
 
+    double_precision(ctx, F)
     hedge_common.replay_hedger(ctx, focus="C01")
 
     ctx.rule = ("every terminal state of the PnL account machine (all spot/unit/cost/payoff/flag combinations of the "
